@@ -468,7 +468,7 @@ PLANS["C08"] = {
         "quick": [leg("rel", 8), leg("dbg", 8), leg("rel-nobmi", 4), leg("dbg-nobmi", 4), leg("bounds", 8), leg("asan", 8), leg("valgrind", 8, scale=8),
                   leg("miri", 5, "raw", of=4000, budget=1500), leg("miri-wrap", 5, "bv", of=4000, budget=1500), leg("miri-wrap", 3, "sparse", of=4000, budget=1200), leg("miri-wrap", 3, "rl", of=4000, budget=800),
                   leg("miri", 2, "wm", of=3000, budget=1200), leg("miri-native", 2, "bv", of=4000, budget=1200),
-                  leg("asan", 4, driver="c10", part="rand"), leg("asan", 4, driver="c01", part="boundary"), leg("asan", 2, driver="c09"), leg("bounds", 4, driver="c10", part="rand"), leg("bounds", 4, driver="c01", part="regime"),
+                  leg("asan", 4, driver="c10", part="rand"), leg("asan", 4, driver="c01", part="boundary"), leg("asan", 2, driver="c09"), leg("asan", 1, driver="c06", part="bitvectors"), leg("bounds", 4, driver="c10", part="rand"), leg("bounds", 4, driver="c01", part="regime"),
                    leg("fuzz", 2, "raw", runs=15000), leg("fuzz", 2, "bv", runs=15000), leg("fuzz", 2, "sparse", runs=15000), leg("fuzz", 2, "rl", runs=15000), leg("fuzz", 2, "wm", runs=15000)],
         "thorough": [leg("rel", 16), leg("dbg", 16), leg("rel-nobmi", 16), leg("dbg-nobmi", 16), leg("bounds", 16), leg("asan", 16), leg("valgrind", 16, scale=4),
                      leg("miri", 8, "raw", of=40000, budget=10000), leg("miri-wrap", 8, "bv", of=40000, budget=10000), leg("miri-wrap", 6, "sparse", of=40000, budget=8000), leg("miri-wrap", 6, "rl", of=40000, budget=8000),
